@@ -1322,12 +1322,12 @@ func (txn *KVTxn) filterAggressiveLockedKeys(lockCtx *tikv.LockCtx, allKeys [][]
 				// This should be an unreachable path.
 				return nil, errors.Errorf("Txn %v Retrying aggressive locking with ForUpdateTS (%v) less than previous LockedWithConflictTS (%v)", txn.StartTS(), lockCtx.ForUpdateTS, lastResult.Value.LockedWithConflictTS)
 			}
-			delete(txn.aggressiveLockingContext.lastRetryUnnecessaryLocks, keyStr)
 			if canTrySkip &&
 				lastResult.trySkipLockingOnRetry(lockCtx.ReturnValues, lockCtx.CheckExistence) &&
 				!txn.mayAggressiveLockingLastLockedKeysExpire() {
 				// We can skip locking it since it's already locked during last attempt to aggressive locking, and
 				// we already have the information that we need.
+				delete(txn.aggressiveLockingContext.lastRetryUnnecessaryLocks, keyStr)
 				if lockCtx.Values != nil {
 					lockCtx.Values[keyStr] = lastResult.Value
 				}
@@ -1335,6 +1335,11 @@ func (txn *KVTxn) filterAggressiveLockedKeys(lockCtx *tikv.LockCtx, allKeys [][]
 				continue
 			}
 		}
+		// The key needs to be locked (again). If it was locked in the previous attempt, keep it in
+		// lastRetryUnnecessaryLocks until the new lock request has succeeded or the lock has been rolled back:
+		// the request may fail without any rollback (a single key failing with write conflict or key exists), or
+		// the key may be skipped due to LockOnlyIfExists, while the lock acquired in the previous attempt is
+		// still there. In these cases it needs to be released as a redundant lock later.
 		keys = append(keys, k)
 	}
 
@@ -1656,6 +1661,8 @@ func (txn *KVTxn) lockKeys(ctx context.Context, lockCtx *tikv.LockCtx, fn func()
 				if txn.IsInAggressiveLockingMode() {
 					for _, k := range allKeys {
 						delete(txn.aggressiveLockingContext.currentLockedKeys, string(k))
+						// They are being rolled back, including those locked in the previous attempt.
+						delete(txn.aggressiveLockingContext.lastRetryUnnecessaryLocks, string(k))
 					}
 				}
 
@@ -1728,6 +1735,8 @@ func (txn *KVTxn) lockKeys(ctx context.Context, lockCtx *tikv.LockCtx, fn func()
 				Value:                 val,
 				ActualLockForUpdateTS: actualForUpdateTS,
 			}
+			// The lock (possibly acquired in the previous attempt) now belongs to the current attempt.
+			delete(txn.aggressiveLockingContext.lastRetryUnnecessaryLocks, keyStr)
 			txn.aggressiveLockingDirty.Store(true)
 		} else {
 			setValExists := tikv.SetKeyLockedValueExists
